@@ -869,12 +869,15 @@ class FragmentSender(object):
 
     def callback(self, index, success):
 
-        if not success and self.retry != RetryMode.NONE:
-            # resend the fragment that timed out
-            cbk = lambda success, idx=index: self.callback(idx, success)
-            self.conn._send_type(PacketType.APP_FRAGMENT, self.fragments[index], self.retry, cbk)
-        else:
-            self.acks[index] = success
+        # every fragment is retried like any other message (same message
+        # sequence number, so that the remote drops duplicates). record the
+        # result and report to the user once all fragments are resolved
+        self.acks[index] = success
+        if all(ack is not None for ack in self.acks):
+            self.conn.pending_fragments.pop(self.frag_id, None)
+            if self.user_callback:
+                callback, self.user_callback = self.user_callback, None
+                callback(all(self.acks))
 
     @staticmethod
     def parsePayload(payload):
@@ -1056,9 +1059,6 @@ class ConnectionBase(object):
             # fragmented messages use different retry logic
             self.seq_fragment += 1
             sender = FragmentSender(self, self.seq_fragment, retry, callback)
-
-            if retry == RetryMode.RETRY_ON_TIMEOUT:
-                retry = RetryMode.NONE
 
             for frag, cbk in sender.build(payload):
                 self._send_type(PacketType.APP_FRAGMENT, frag, retry, cbk)
